@@ -93,6 +93,15 @@ static void child_viol(const char *prop, const char *key, const char *fmt, ...) 
 /* ------------------------------------------------------------------ */
 /* keys and values */
 
+/* keys are not NUL-terminated: never atoi() them */
+static int parse_num(const char *p, size_t n) {
+  int v = 0;
+  size_t i;
+  if (n == 0 || n > 9) return -1;
+  for (i = 0; i < n; i++) { if (p[i] < '0' || p[i] > '9') return -1; v = v * 10 + (p[i] - '0'); }
+  return v;
+}
+
 static size_t data_key(char *buf, int idx) { return (size_t)sprintf(buf, "d/%03d", idx); }
 static size_t marker_key(char *buf, int id) { return (size_t)sprintf(buf, "m/%08d", id); }
 
@@ -454,13 +463,13 @@ static int scan_db(ldb_t *db, uint8_t *S, actual_t *act, int *unknown_keys, char
     const char *kp = k.data;
     nkeys++;
     if (k.size == 10 && kp[0] == 'm' && kp[1] == '/') {
-      int id = atoi(kp + 2);
+      int id = parse_num(kp + 2, k.size - 2);
       uint64_t idv = 0;
       if (v.size == 8) memcpy(&idv, v.data, 8);
       if (id >= 1 && id <= nbatches && idv == (uint64_t)id) S[id] = 1;
       else { (*unknown_keys)++; snprintf(unknown_msg, msz, "marker '%s' with value len %zu", vh_esc(k.data, k.size), v.size); }
     } else if (k.size == 5 && kp[0] == 'd' && kp[1] == '/') {
-      int idx = atoi(kp + 2);
+      int idx = parse_num(kp + 2, k.size - 2);
       if (idx >= 0 && idx < NKEYS) {
         act[idx].present = 1;
         act[idx].len = v.size;
